@@ -471,7 +471,7 @@ def record(cid, obs, opts, model=None, fname="main.asm"):
              "fmt_lines": [], "fmt2_lines": []}
     asm = bool(obs.get("asm")) and obs.get("asm_before") is not None
     return {"id": cid, "kind": "fmt", "hasModel": model is not None, "file": tla_ready(model) if model is not None else EMPTY_FILE,
-            "opts": opts, "ok": ok, "panic": obs.get("panic") or "", "reparse_ok": bool(obs.get("reparse_ok")),
+            "opts": opts, "ok": ok, "panic": obs.get("panic") or "", "panicWidth": "Formatting argument out of range" in (obs.get("panic") or ""), "reparse_ok": bool(obs.get("reparse_ok")),
             "asm": asm, "asm_same": (obs.get("asm_before") == obs.get("asm_after")) if asm else True,
             "ast": f["ast"], "ast_fmt": f["ast_fmt"], "comments": f["comments"], "comments_fmt": f["comments_fmt"],
             "lex": f["lex"], "lex_fmt": f["lex_fmt"], "dropgap": [d["text"] for d in f["dropgap"] if d["owner"] != "import-arg"],
@@ -488,14 +488,17 @@ GOLDEN = ["mos-core/test-data/format/valid-unformatted.asm", "mos-core/test-data
 
 
 # deviations for which Format.tla has a pinned and a repaired reading (constant Devs), and all recorded ones
-DEVS_IN_SPEC = ["OpenBraceGapDropped", "SameLineStatementsGlued", "ElseOnNewLineGainsBlankLine", "ImportArgGapDropped"]
-DESIGN_REFUTED = {"C12": ["OpenBraceGapDropped", "SameLineStatementsGlued", "ImportArgGapDropped"],
+DEVS_IN_SPEC = ["OpenBraceGapDropped", "SameLineStatementsGlued", "ElseOnNewLineGainsBlankLine", "ImportArgGapDropped", "FormatWidthPanics"]
+DESIGN_REFUTED = {"C12": ["OpenBraceGapDropped", "SameLineStatementsGlued", "ImportArgGapDropped", "FormatWidthPanics"],
                   "C13": ["ElseOnNewLineGainsBlankLine", "BlockCommentContinuationPadded"]}
-INVARIANTS = ("CommentsKept NoJoin TerminalsKept StepwiseIsFunctional OneStatementPerLine NoTrailingBlanks NoDoubleBlank "
+INVARIANTS = ("NeverPanics CommentsKept NoJoin TerminalsKept StepwiseIsFunctional OneStatementPerLine NoTrailingBlanks NoDoubleBlank "
               "ContinuationVerbatim ElseStaysAttached")
 CP2 = '{"lu", "ul"}'            # (mnemonic casing, register casing)
 CP4 = '{"ll", "lu", "ul", "uu"}'
-GRIDS = {"small": ("{2}", "{4}", "{6}", 99, CP2), "quick": ("{0, 2}", "{0, 4}", "{0, 6}", 2, CP2), "thorough": ("{0, 2, 8}", "{0, 4, 20}", "{0, 6, 30}", 2, CP4)}
+# (Indents, Margins, CodeMargins, ReplayIndent, CasePairs, MaxWidth, FormLimit); "width" puts the margins on a scaled width limit of 8
+GRIDS = {"small": ("{2}", "{4}", "{6}", 99, CP2, 65535, 31), "quick": ("{0, 2}", "{0, 4}", "{0, 6}", 2, CP2, 65535, 31),
+         "thorough": ("{0, 2, 8}", "{0, 4, 20}", "{0, 6, 30}", 2, CP4, 65535, 31),
+         "width": ("{0, 2, 9}", "{0, 8, 9}", "{0, 1}", 99, '{"lu"}', 8, 7)}
 
 
 def findings_view():
@@ -534,10 +537,22 @@ def tla_set(names):
 def mc_cfg(name, devs, allowed, grid, invariants):
     d = V.workdir("fmt-cfg")
     path = os.path.join(d, name + ".cfg")
-    ind, lm, cm, replay, cps = GRIDS[grid]
+    ind, lm, cm, replay, cps, maxw, nforms = GRIDS[grid]
     with open(path, "w") as f:
-        f.write("SPECIFICATION Spec\nCONSTANTS Devs = %s\n  Allowed = %s\n  Indents = %s\n  Margins = %s\n  CodeMargins = %s\n  ReplayIndent = %d\n  CasePairs = %s\nINVARIANTS %s\n"
-                % (tla_set(devs), tla_set(allowed), ind, lm, cm, replay, cps, invariants))
+        f.write("SPECIFICATION Spec\nCONSTANTS Devs = %s\n  Allowed = %s\n  Indents = %s\n  Margins = %s\n  CodeMargins = %s\n  ReplayIndent = %d\n  CasePairs = %s\n  MaxWidth = %d\n  FormLimit = %d\nINVARIANTS %s\n"
+                % (tla_set(devs), tla_set(allowed), ind, lm, cm, replay, cps, maxw, nforms, invariants))
+    return path
+
+
+CMD_DEVS = ["FormatEntryFromCwd", "FormatWidthPanics"]
+
+
+def cmd_cfg(name, devs, tolerated):
+    d = V.workdir("fmt-cfg")
+    path = os.path.join(d, "MC_FormatCmd-%s.cfg" % name)
+    with open(path, "w") as f:
+        f.write("SPECIFICATION CSpec\nCONSTANTS N = 3\n  Deviations = %s\n  Tolerated = %s\nINVARIANTS UntouchedOnError OnlyProjectTouched FinalPost\nPROPERTY Terminates\n"
+                % (tla_set(devs), tla_set(tolerated)))
     return path
 
 
@@ -545,7 +560,7 @@ def trace_cfg(prop, devs):
     d = V.workdir("fmt-cfg")
     path = os.path.join(d, "FormatTrace_%s.cfg" % prop)
     with open(path, "w") as f:
-        f.write('SPECIFICATION Spec\nCONSTANTS Prop = "%s"\n  Devs = %s\nPOSTCONDITION Consumed\n' % (prop, tla_set(devs)))
+        f.write('SPECIFICATION Spec\nCONSTANTS Prop = "%s"\n  Devs = %s\n  MaxWidth = 65535\nPOSTCONDITION Consumed\n' % (prop, tla_set(devs)))
     return path
 
 
@@ -570,11 +585,19 @@ def design_level(rep, tier, prop, opened):
     rep.add_tlc(rv)
     if not rv.invariant_violated:
         raise V.ToolError("MC_Format: no run of the machine reaches its end")
+    if prop == "C12":      # the margins on the (scaled) width limit: label margin / indent / label + code margin at, below and beyond it
+        rw = V.tlc(mc, cfg=mc_cfg("C12-width", devs, opened, "width", INVARIANTS), workers=4, timeout=900, tag="C12-width")
+        rep.add_tlc(rw)
+        if rw.invariant_violated:
+            rep.violations.append({"why": "design level: MC_Format (width boundary grid) invariant violated", "replay": {"tlc_output": V.tail(rw.out, 80)}, "id": "MC_Format-width"})
+        elif rw.rc != 0:
+            raise V.ToolError("MC_Format width grid failed:\n" + V.tail(rw.out, 40))
+        rep.notes.append("MC_Format width-boundary grid (MaxWidth scaled to 8, margins {0,8,9}, indent {0,2,9}): %d states" % rw.distinct)
     # every recorded defect of this property, open or repaired: its pinned reading without the tolerance must be refuted
     for d in DESIGN_REFUTED[prop]:
         dv = sorted(set(devs) | ({d} if d in DEVS_IN_SPEC else set()))
         al = [x for x in opened if x != d]
-        rv = V.tlc(mc, cfg=mc_cfg("%s-refute-%s" % (prop, d), dv, al, "small", INVARIANTS), workers=4, timeout=900, tag=prop + "-refute")
+        rv = V.tlc(mc, cfg=mc_cfg("%s-refute-%s" % (prop, d), dv, al, "width" if d == "FormatWidthPanics" else "small", INVARIANTS), workers=4, timeout=900, tag=prop + "-refute")
         rep.add_tlc(rv)
         if not rv.invariant_violated:
             raise V.ToolError("MC_Format: the pinned reading of %s is not refuted once the deviation is not tolerated" % d)
@@ -582,16 +605,20 @@ def design_level(rep, tier, prop, opened):
                      % ", ".join(DESIGN_REFUTED[prop]))
     if prop == "C12":
         mcc = os.path.join(SPECDIR, "MC_FormatCmd.tla")
-        rc = V.tlc(mcc, cfg=os.path.join(SPECDIR, "MC_FormatCmd.cfg"), workers=2, timeout=600, tag="C12-mccmd")
+        cdevs = [d for d in CMD_DEVS if d in opened]
+        rc = V.tlc(mcc, cfg=cmd_cfg("regular", cdevs, cdevs), workers=2, timeout=600, tag="C12-mccmd")
         rep.add_tlc(rc)
         if rc.invariant_violated:
             rep.violations.append({"why": "design level: MC_FormatCmd invariant/liveness violated", "replay": {"tlc_output": V.tail(rc.out, 60)}, "id": "MC_FormatCmd"})
         elif rc.rc != 0:
             raise V.ToolError("MC_FormatCmd failed:\n" + V.tail(rc.out, 40))
-        rv = V.tlc(mcc, cfg=os.path.join(SPECDIR, "MC_FormatCmd_vac.cfg"), workers=2, timeout=600, tag="C12-mccmd-vac")
-        if not rv.invariant_violated:
-            raise V.ToolError("MC_FormatCmd: UntouchedOnError is vacuous (write-before-parse variant not rejected)")
-        rep.notes.append("MC_FormatCmd: N=3 files, every error subset, every rewrite order: UntouchedOnError, AllRewritten, Terminates (%d states)" % rc.distinct)
+        for d in CMD_DEVS + ["WriteBeforeParseAll"]:
+            rv = V.tlc(mcc, cfg=cmd_cfg("refute-" + d, sorted(set(cdevs) | {d}), [x for x in cdevs if x != d]), workers=2, timeout=600, tag="C12-mccmd-refute")
+            if not rv.invariant_violated:
+                raise V.ToolError("MC_FormatCmd: the pinned reading of %s is not refuted once it is not tolerated" % d)
+        rep.notes.append("MC_FormatCmd: N=3 files + a decoy main.asm, started in the root or a subdirectory, with/without a width beyond the limit, every "
+                         "error subset and rewrite order: UntouchedOnError, OnlyProjectTouched, FinalPost, Terminates (%d states, pinned %s); the pinned "
+                         "readings of %s are each refuted" % (rc.distinct, cdevs or "none", ", ".join(CMD_DEVS + ["WriteBeforeParseAll"])))
     cases = []
     for line in r.prints("CASE"):
         m = line[len('<<"CASE", '):-2]
@@ -655,6 +682,11 @@ def build_cases(tier, prop, mc_cases):
                 depth=rnd.choice([1, 2, 2]), multiline=rnd.random() < 0.6)
         f = g.file(rnd.randrange(1, 7))
         add({"main.asm": render_file(f), "o.asm": OTHER_ASM}, random_opts(rnd), f, "random")
+    # 2b. widths on the limit of what `format!` can pad (65535): tier 1 only
+    tiny = "foo: nop // c\n{\n  { lda #1 }\n}\n"
+    for key, val in [("lm", 65535), ("lm", 65536), ("indent", 65535), ("indent", 65536), ("cm", 65535), ("cm", 65536)]:
+        add({"main.asm": tiny}, dict(DEFAULT_OPTS, **{key: val}), None, "width", asm=False)
+    add({"main.asm": tiny}, dict(DEFAULT_OPTS, lm=40000, cm=40000), None, "width", asm=False)
     # 3. the repository's golden files (all statement kinds incl. .define/.import/.file/.segment) and mutations of them; no model
     for files, name in golden_cases():
         add(files, dict(DEFAULT_OPTS), None, "golden")
@@ -704,8 +736,20 @@ def cmd_cases(tier, prop):
         if err:
             bad = names[rnd.randrange(nfiles)]
             files[bad] += "\n lda #(\n"
-        out.append({"files": files, "opts": opts, "err": err})
+        out.append({"files": files, "opts": opts, "err": err, "cwd": "root", "decoy": False})
+    # margins at 0, on and beyond the width limit
+    tiny = "foo: nop // c\n{\n  { lda #1 }\n}\n"
+    for key in ("lm", "indent", "cm"):
+        for val in (0, 65535, 65536):
+            out.append({"files": {"main.asm": tiny}, "opts": dict(DEFAULT_OPTS, **{key: val}), "err": False, "cwd": "root", "decoy": False})
+    # started in the project root / in a subdirectory, with and without a main.asm of its own there
+    for cwd, decoy, err in [("sub", False, False), ("sub", False, True), ("sub", True, False), ("sub", True, True), ("root", True, False)]:
+        files = {"main.asm": '.import * from "a.asm"\nstart:   lda #1 // c\n' + (" lda #(\n" if err else ""), "a.asm": "lib:    rts\n"}
+        out.append({"files": files, "opts": random_opts(rnd), "err": err, "cwd": cwd, "decoy": decoy})
     return out
+
+
+DECOY_TEXT = "decoy:     nop   // not part of the project\n"
 
 
 def run_mos_format(mos, proj, idx):
@@ -717,9 +761,19 @@ def run_mos_format(mos, proj, idx):
     for name, text in proj["files"].items():
         with open(os.path.join(d, name), "w") as f:
             f.write(text)
-    p = subprocess.run([mos, "--no-color", "-e", "Short", "format"], cwd=d, capture_output=True, text=True, timeout=60)
+    sub = os.path.join(d, "sub")
+    os.makedirs(sub)
+    others = {}
+    if proj["decoy"]:
+        others["sub/main.asm"] = DECOY_TEXT
+        with open(os.path.join(sub, "main.asm"), "w") as f:
+            f.write(DECOY_TEXT)
+    p = subprocess.run([mos, "--no-color", "-e", "Short", "format"], cwd=sub if proj["cwd"] == "sub" else d, capture_output=True, text=True, timeout=120)
     after = {name: open(os.path.join(d, name)).read() for name in proj["files"]}
-    return p, after
+    oafter = {name: open(os.path.join(d, name)).read() for name in others}
+    crashed = p.returncode not in (0, 1) or "panicked at" in p.stderr
+    outcome = "crash" if crashed else ("ok" if p.returncode == 0 else "error")
+    return p, after, others, oafter, outcome
 
 
 def run(prop, tier):
@@ -729,7 +783,7 @@ def run(prop, tier):
     rows = findings_view()
     rep.open = {f["deviation"]: f for f in rows if f.get("property") == prop and f.get("status") == "open"}
     opened = open_names(rows)
-    devs = [d for d in DEVS_IN_SPEC if d in opened]
+    devs = [d for d in DEVS_IN_SPEC + ["FormatEntryFromCwd"] if d in opened]
     rep.notes.append("open findings (C12+C13): %s; Format.tla runs the pinned reading for %s and the repaired reading for %s"
                      % (opened or "none", devs or "none", [d for d in DEVS_IN_SPEC if d not in devs] or "none"))
     build_harness(["fmtdrive"])
@@ -755,14 +809,20 @@ def run(prop, tier):
         dobs = drive(dcases, "C12-cmd-drive")
         for i, p in enumerate(projs):
             o = dobs[i + 1]
-            proc, after = run_mos_format(mos, p, i)
-            expect = {f["name"]: f["fmt"] for f in o["files"]} if o["ok"] else {}
+            proc, after, others, oafter, outcome = run_mos_format(mos, p, i)
+            expect = {f["name"]: f["fmt"] for f in o["files"]} if o["ok"] and not o["panic"] else {}
             rid = 1000000 + i
             files = [{"name": n, "before": p["files"][n], "after": after[n], "expect": expect.get(n, p["files"][n])} for n in sorted(p["files"])]
-            recs.append({"id": rid, "kind": "cmd", "parseError": not o["ok"], "files": files})
-            cmd_meta[rid] = {"project": p, "exit": proc.returncode, "stdout": proc.stdout[-2000:], "stderr": proc.stderr[-2000:], "after": after}
+            w = p["opts"]
+            recs.append({"id": rid, "kind": "cmd", "outcome": outcome, "parseError": not o["ok"],
+                         "cfgBeyond": w["lm"] + w["cm"] > 65535 or w["indent"] * 16 > 65535,     # some width the layout needs is beyond the limit "panicWidth": "Formatting argument out of range" in proc.stderr,
+                         "cwd": p["cwd"], "decoy": p["decoy"], "files": files,
+                         "others": [{"name": n, "before": others[n], "after": oafter[n]} for n in sorted(others)]})
+            cmd_meta[rid] = {"project": {k: (v if k != "files" else {n: t[:2000] for n, t in v.items()}) for k, v in p.items()}, "exit": proc.returncode,
+                             "stdout": proc.stdout[-2000:], "stderr": proc.stderr[-2000:], "after": {n: t[:2000] for n, t in after.items()}, "others_after": oafter}
             ncmd += 1
-        rep.notes.append("`mos format` run on %d projects of 1-3 files (every other one with a parse error in one file)" % ncmd)
+        rep.notes.append("`mos format` run on %d projects: 1-3 files (every other one with a parse error in one file); label-margin / indent / code-margin "
+                         "at 0, 65535 and 65536; started in the project root and in a subdirectory with and without a main.asm of its own" % ncmd)
     nok = sum(1 for r in recs if r.get("kind") == "fmt" and r["ok"])
     if nok < len(cases) // 2:
         raise V.ToolError("too few generated programs parse (%d of %d): generator or tree broken" % (nok, len(cases)))
@@ -776,7 +836,7 @@ def run(prop, tier):
                        "block/2-line/line comment x option grid), seeded random programs of 1-6 statements (nesting <= 2, comments in every gap, "
                        "options from the grid and random margins), the two golden files and line-level mutations of them under random options; "
                        "distinct = distinct (text, options) pairs")
-    rep.cov["families"] = {fam: sum(1 for m in meta.values() if m["family"] == fam) for fam in ("tlc", "random", "golden", "golden-mutated")}
+    rep.cov["families"] = {fam: sum(1 for m in meta.values() if m["family"] == fam) for fam in ("tlc", "random", "width", "golden", "golden-mutated")}
     rep.cov["with_model_tier2"] = sum(1 for r in recs if r.get("hasModel") and r["ok"])
     for c in cases[:2] + cases[len(cases) // 2:len(cases) // 2 + 1]:
         o = obs[c["id"]]
